@@ -671,6 +671,53 @@ def prelu_kinds(res, tier, okx):
     return {"cases": len(rows), "decisions": dict(dec)}
 
 
+def axis_parts(res, tier, okx):
+    """correspondence of model/Rewrites.v offsets_from with rewrite_concat_ops (write offsets of the copies) and
+    rewrite_split_ops (read offsets of the slices) for CONCATENATION, PACK, SPLIT and SPLIT_V over ranks 2 - 4"""
+    import tempfile
+    n = 120 if tier == "quick" else 2400
+    rng = random.Random("c01parts/%d" % vlib.seed())
+    cases = []
+    for _ in range(n):
+        kind = rng.choice([0, 0, 1, 2, 3])
+        rank = rng.choice([2, 3, 4, 4]) if kind != 3 else rng.choice([2, 3])
+        axis = rng.randrange(1, rank) if kind != 3 else rng.randrange(1, rank + 1)
+        k = rng.randrange(2, 5)
+        es = [rng.randrange(1, 7) for _ in range(k)]
+        if kind == 1:
+            es = [es[0]] * k
+        if kind == 3:
+            es = [1] * k
+        cases.append([kind, rank, axis, rng.choice([2, 3, 5])] + es)
+    tmp = tempfile.mkdtemp(prefix="c01parts_", dir=vlib.BUILD)
+    cj, oj = os.path.join(tmp, "cases.json"), os.path.join(tmp, "out.json")
+    json.dump(cases, open(cj, "w"))
+    p = subprocess.run([vlib.PY, os.path.join(vlib.ROOT, "tools", "rewrite_worker.py"), cj, oj, "parts"], env=vlib.py_env({"VERIF_TMP": tmp}),
+                       capture_output=True, text=True, timeout=3000)
+    if p.returncode != 0 or not os.path.exists(oj):
+        res.violation({"machinery": "rewrite worker (parts)"}, {"stderr": p.stderr[-1500:]},
+                      "C01: rewrite_concat_ops / rewrite_split_ops could not be run on generated operators", no_input=True)
+        return {"cases": 0}
+    impl = json.load(open(oj))
+    shutil.rmtree(tmp, ignore_errors=True)
+    model = models.run("axis_offsets", [c[4:] for c in cases]) if okx else []
+    bad = 0
+    kinds = collections.Counter()
+    names = ["CONCATENATION", "SPLIT", "SPLIT_V", "PACK"]
+    for c, o, m in zip(cases, impl, model):
+        kinds[names[c[0]]] += 1
+        want_axis = c[2] + (4 - (c[1] + (1 if c[0] == 3 else 0)))
+        ok = o["other_axes_zero"] and o["extents"] == c[4:] and o["offsets"] == m and (o["axis4"] == want_axis or all(v == 0 for v in m[1:]))
+        if not ok and bad < 5:
+            bad += 1
+            res.violation({"kind": "axis_parts", "case": c},
+                          {"operator": names[c[0]], "rank": c[1], "axis": c[2], "extents of the parts": c[4:], "implementation": o,
+                           "model offsets": m, "4-D axis expected": want_axis},
+                          "C01: %s of parts %s along axis %d of rank-%d tensors: the offsets the rewrite gives the parts are not the running sums "
+                          "(props/C01.v axis_parts_cover / axis_parts_disjoint): parts overlap or leave a gap" % (names[c[0]], c[4:], c[2], c[1]))
+    return {"cases": len(model), "operators": dict(kinds)}
+
+
 def run(tier):
     res = vlib.Result("C01", tier, "other")
     b = vlib.build_property("C01")
@@ -683,6 +730,7 @@ def run(tier):
     rw_cov["conv_group_slices"] = conv_group_slices(res, tier, okm and b["ok"])
     rw_cov["stride_folds"] = stride_folds(res, tier, okm and b["ok"])
     rw_cov["prelu_kinds"] = prelu_kinds(res, tier, okm and b["ok"])
+    rw_cov["axis_parts"] = axis_parts(res, tier, okm and b["ok"])
     n = 470 if tier == "quick" else 3400
     max_macs = 1200000 if tier == "quick" else 30000000
     rng = random.Random("c01/%d" % vlib.seed())
